@@ -341,7 +341,13 @@ pub fn enum_def(e: &EnumSpec, o: &EnumOpts) -> String {
         match v.kind {
             Kind::Unit => {}
             Kind::Tuple => {
-                let fs: Vec<String> = v.fields.iter().map(|f| f.ty.rust().to_string()).collect();
+                // a field-level attribute here is inert: strum reads field attributes of named fields only
+                let fs: Vec<String> = v
+                    .fields
+                    .iter()
+                    .enumerate()
+                    .map(|(fi, f)| if f.default_with { format!("#[strum(default_with = \"{}\")] {}", dw_fn_name(vi, fi), f.ty.rust()) } else { f.ty.rust().to_string() })
+                    .collect();
                 let _ = write!(s, "({})", fs.join(", "));
             }
             Kind::Named => {
@@ -675,7 +681,11 @@ pub fn module_string(e: &EnumSpec, o: &ModOpts) -> ModuleSrc {
     let clone: &[&str] = &["Clone"];
     // how the custom error function is named: plain, multi-segment path, associated function reached through
     // `Self`, generic function with a turbofish
-    let err_form = if e.parse_err() { e.hash64() % 5 } else { 9 };
+    // 5: a bare name that generated code might use for a helper of its own (seeded change C18-31: a nested
+    // `fn parse_err` inside `from_str` shadowed the user's function of that name and called itself)
+    let err_form = if e.parse_err() { e.hash64() % 6 } else { 9 };
+    const HELPERISH: &[&str] = &["parse_err", "from_str", "try_from", "err", "fallback", "not_found", "f", "s"];
+    let helperish: &'static str = HELPERISH[((e.hash64() >> 8) % HELPERISH.len() as u64) as usize];
     let err_path = err_form == 0 || err_form == 3;
     let emit_one = |e: &EnumSpec, name: &str, src: &mut Src, mark_def: bool| {
         let mut eo = enum_opts(e, name);
@@ -688,6 +698,7 @@ pub fn module_string(e: &EnumSpec, o: &ModOpts) -> ModuleSrc {
             3 => eo.err_fn = "errs::mk_err_g::<u8>",
             // generic over the argument type: cannot be coerced to one `fn(&str) -> _` pointer type
             4 => eo.err_fn = "mk_err_any",
+            5 => eo.err_fn = helperish,
             _ => {}
         }
         if mark_def {
@@ -718,6 +729,9 @@ pub fn module_string(e: &EnumSpec, o: &ModOpts) -> ModuleSrc {
         } else {
             src.push("pub fn mk_err(s: &str) -> vrt::MyErr { ERR_CNT.fetch_add(1, ::std::sync::atomic::Ordering::SeqCst); vrt::MyErr(s.to_string()) }");
             src.push("pub fn mk_err_any<S: ::core::convert::AsRef<str>>(s: S) -> vrt::MyErr { mk_err(s.as_ref()) }");
+            if err_form == 5 {
+                src.push(&format!("pub fn {}(s: &str) -> vrt::MyErr {{ mk_err(s) }}", helperish));
+            }
         }
     }
     let name = e.type_name();
